@@ -116,6 +116,12 @@ where
             log.op("pow", vec![json!(nat_of_big(a)), json!(nat_of_big(&BigUint::from(e)))], || n(&x.pow_vartime([e])));
         }
         log.op("pow", vec![json!(nat_of_big(a)), json!(nat_of_big(&((BigUint::from(u64::MAX) << 64) + 5u8)))], || n(&x.pow([5, u64::MAX])));
+        // multi-limb exponents with zero limbs in every position
+        for limbs in [vec![0u64, 1], vec![1, 0, 1], vec![0, 0, 0, 1], vec![7, 0, 0, 3], vec![0, 0, 9, 0]] {
+            let e = limbs.iter().rev().fold(BigUint::from(0u8), |acc, l| (acc << 64) + BigUint::from(*l));
+            log.op("pow", vec![json!(nat_of_big(a)), json!(nat_of_big(&e))], || n(&x.pow(&limbs)));
+            log.op("pow", vec![json!(nat_of_big(a)), json!(nat_of_big(&e))], || n(&x.pow_vartime(&limbs)));
+        }
         // canonical encoding round trip
         log.op("repr_roundtrip", ins.clone(), || {
             let r: Option<S> = S::from_repr(x.to_repr()).into();
@@ -318,6 +324,20 @@ pub fn main(args: &[String]) -> i32 {
     cf!("bls_fq", bls12_381::Fq, true, Some(&uni_fq), Some(<bls12_381::Fq as WithSmallOrderMulGroup<3>>::ZETA));
     cf!("bls_fp", bls12_381::Fp, true, None, Some(<bls12_381::Fp as WithSmallOrderMulGroup<3>>::ZETA));
     cf!("jub_fr", midnight_curves::Fr, true, None, None);
+    if all || which == "jub_fr" {
+        // the inherent (non-trait) exponentiations of the Jubjub scalar field, on four-limb exponents
+        let mut log = Log { out: &mut out, field: "jub_fr" };
+        let p = <midnight_curves::Fr as CircuitField>::modulus();
+        for a in operands(&p).iter().step_by(3) {
+            let x: midnight_curves::Fr = of_big(a);
+            for limbs in [[0u64, 0, 0, 0], [1, 0, 0, 0], [0, 1, 0, 0], [1, 0, 1, 0], [0, 0, 0, 1], [7, 0, 0, 3], [0, 0, 9, 0], [u64::MAX, 0, u64::MAX, 0], [5, 6, 7, 8]] {
+                let e = limbs.iter().rev().fold(BigUint::from(0u8), |acc, l| (acc << 64) + BigUint::from(*l));
+                let nat = |x: &midnight_curves::Fr| nat_of_big(&x.to_biguint());
+                log.op("pow", vec![json!(nat_of_big(a)), json!(nat_of_big(&e))], || json!(nat(&midnight_curves::Fr::pow(&x, &limbs))));
+                log.op("pow", vec![json!(nat_of_big(a)), json!(nat_of_big(&e))], || json!(nat(&midnight_curves::Fr::pow_vartime(&x, &limbs))));
+            }
+        }
+    }
     cf!("secp_fp", k256_mod::Fp, false, None, None);
     cf!("secp_fq", k256_mod::Fq, false, None, None);
     cf!("c25519_fp", curve25519::Fp, true, Some(&uni_c25519), Some(<curve25519::Fp as WithSmallOrderMulGroup<3>>::ZETA));
